@@ -131,7 +131,10 @@ impl CaseCx {
     if !is_known_key(&key) {
       self.viol_count.fetch_add(1, Ordering::Relaxed);
     }
-    if self.viols.len() < 64 {
+    // keep a few observations PER KEY: thousands of observations of one key (a recorded known finding, say)
+    // must never crowd out the first observation of another key
+    let same = self.viols.iter().filter(|v| v.key == key).count();
+    if same < 8 && self.viols.len() < 512 {
       self.viols.push(Viol { key, what: what.into(), detail });
     }
     *self.counts.entry("violating_observations").or_insert(0) += 1;
@@ -172,7 +175,8 @@ impl CaseCx {
   }
   pub fn absorb(&mut self, other: CaseCx) {
     for v in other.viols {
-      if self.viols.len() < 64 {
+      let same = self.viols.iter().filter(|w| w.key == v.key).count();
+      if same < 8 && self.viols.len() < 512 {
         self.viols.push(v);
       }
     }
@@ -305,7 +309,8 @@ fn run_check(spec: &PropSpec, ck: &Check, opt: &Options, deadline: Option<Instan
           if !cx.viols.is_empty() {
             let hist = std::sync::Arc::new(if new_unknown > 0 { history.clone() } else { vec![] });
             for v in cx.viols {
-              if local.viols.len() < 256 {
+              // per key, so that many observations of one key never crowd out another key
+              if local.viols.iter().filter(|w| w.0 == v.key).count() < 32 && local.viols.len() < 2048 {
                 local.viols.push((v.key, v.what, v.detail, ck.name, case.clone(), hist.clone()));
               }
             }
@@ -538,7 +543,7 @@ pub fn run_property(spec: PropSpec, opt: Options) -> i32 {
     });
     let _ = std::fs::write(&path, serde_json::to_string_pretty(&rec).unwrap());
     if let Some(kf) = is_known {
-      println!("KNOWN-FINDING: property={} {} [{}; {} occurrence(s); e.g. {}]", spec.id, kf.what, key, vs.len(), path);
+      println!("KNOWN-FINDING: property={} {} [{}; {} recorded occurrence(s); e.g. {}]", spec.id, kf.what, key, vs.len(), path);
       known_hits.push(key.clone());
     } else {
       new_violations += 1;
